@@ -74,3 +74,19 @@ WIPE(aead128, aead128) WIPE(aead128a, aead128a) WIPE(aead80pq, aead80pq)
 WIPE(siv128, siv128) WIPE(siv128a, siv128a) WIPE(siv80pq, siv80pq)
 WIPE(isap128a, isap128a) WIPE(isap128, isap128) WIPE(isap80pq, isap80pq)
 WIPE(masked128, aead128_masked) WIPE(masked128a, aead128a_masked) WIPE(masked80pq, aead80pq_masked)
+
+/* C13, destructor at the end of a real scope: the object is an automatic variable, its address escapes to the
+ * harness (verif_register) and the harness looks at the storage (verif_observe) AFTER the lifetime has ended.
+ * For the optimiser every store into the dying object that is not followed by a legal read is dead: a wipe done
+ * with plain memset / assignments is removed, a wipe through ascon_clean (opaque call) stays. */
+extern "C" void verif_register(void *p, unsigned long n);
+extern "C" void verif_observe(void);
+extern "C" void verif_use(void *p);
+#define SCOPE(NAME, C) extern "C" void w_##NAME##_scope(const unsigned char *key, unsigned long kl, const unsigned char *nonce) \
+{ { unsigned char buf[32]; ascon::C obj; verif_register(&obj, sizeof(obj)); obj.set_key(key, kl); obj.set_nonce(nonce, 16); \
+    obj.encrypt(buf, key, 1, 0, 0);   /* the key and nonce must really be in the object: an opaque C call reads them */ \
+    verif_use(buf); } verif_observe(); }
+SCOPE(aead128, aead128) SCOPE(aead128a, aead128a) SCOPE(aead80pq, aead80pq)
+SCOPE(siv128, siv128) SCOPE(siv128a, siv128a) SCOPE(siv80pq, siv80pq)
+SCOPE(isap128a, isap128a) SCOPE(isap128, isap128) SCOPE(isap80pq, isap80pq)
+SCOPE(masked128, aead128_masked) SCOPE(masked128a, aead128a_masked) SCOPE(masked80pq, aead80pq_masked)
